@@ -1270,7 +1270,9 @@ def run_itp():
                 # too few tokens for the arity of a fixed-arity section, in the first or in a later moleculetype
                 short = rng.choice([('bonds', '1'), ('angles', '1 2'), ('dihedrals', '1 2 1'), ('constraints', '2'),
                                     ('pairs', '1'), ('virtual_sites2', '1 2'), ('virtual_sites3', '1 2 1'),
-                                    ('angles', '2'), ('distance_restraints', '1'), ('orientation_restraints', '2')])
+                                    ('angles', '2'), ('distance_restraints', '1'), ('orientation_restraints', '2'),
+                                    ('dihedral_restraints', '1 2 1'), ('angle_restraints', '1 2'),
+                                    ('virtual_sites4', '1 2 1 2'), ('dihedral_restraints', '2')])
                 clean = [t for t in bad if not t.startswith('#')]
                 mts = [q for q, t in enumerate(clean) if t == '[ moleculetype ]']
                 which = rng.randrange(len(mts))
@@ -1286,9 +1288,9 @@ def run_itp():
                 j = rng.randint(0, len(clean))
                 bad = clean[:j] + pr[:1] + clean[j:] + pr[1:]
             cases.append(('itp-%d-fault' % i, bad, None))
-    # F-C13-10 (reported, not fixed): sections whose atoms are given by a slice accept too few atoms
-    cases.append(('itp-quirk-F-C13-10', ['[ moleculetype ]', 'M 1', '[ atoms ]', '1 P 1 M A 1', '2 P 1 M B 2',
-                                         '[ dihedral_restraints ]', '1 2 1'], 'quirk'))
+    # F-C13-10 (fixed): sections whose atoms are given by a bounded slice must be filled completely
+    cases.append(('itp-corpus-fixed-f-c13-10', ['[ moleculetype ]', 'M 1', '[ atoms ]', '1 P 1 M A 1', '2 P 1 M B 2',
+                                                '[ dihedral_restraints ]', '1 2 1'], None))
     lines = [line('itp', ls) for _, ls, _ in cases]
     for (cid, ls, exp), ln, mo in zip(cases, lines, ask(lines)):
         ff = ForceField(name='verif')
@@ -1299,14 +1301,8 @@ def run_itp():
             im = enc(got)
         except Exception as e:
             got, im = None, 'error'
-        if exp == 'quirk':
-            what = ('a [ dihedral_restraints ] / [ angle_restraints ] / [ virtual_sites4 ] line of an .itp with fewer '
-                    'atoms than the arity is loaded as a shorter interaction (atoms taken by a slice): ' + clip(im, 200))
-            if 'F-C13-10' in KNOWN_IDS:
-                chk.case(cid, ln, im, mo, [what] if got is not None else [], True, finding='F-C13-10')
-                continue
-            if got is not None:
-                pending('F-C13-10', cid, what)
+        if False:
+            pass
         elif exp is None:
             if got is not None:
                 errs.append('malformed .itp loaded instead of rejected')
@@ -1315,7 +1311,7 @@ def run_itp():
             errs.append('well-formed .itp rejected')
         elif got != exp:
             errs.append('.itp blocks loaded %s, declared %s' % (clip(got, 300), clip(exp, 300)))
-        chk.case(cid, ln, im, mo, errs, exp is None or exp == 'quirk' or len(exp) >= 2)
+        chk.case(cid, ln, im, mo, errs, exp is None or len(exp) >= 2)
 
 
 # ----------------------------------------------------------------------------------------------
